@@ -284,6 +284,9 @@ pub(crate) struct Model {
     pub history: BTreeMap<String, Vec<(String, String, String)>>,
     pub max_users: usize,
     pub server_quit: bool,
+    /// (channel or nick, properties) touched by state changes since the oracle last drained it:
+    /// used to attribute later probe discrepancies to the operations that could have caused them
+    pub touched: Vec<(String, u32)>,
 }
 
 fn split_cmd(line: &str) -> Option<irc::Line> {
@@ -309,7 +312,7 @@ impl Model {
             ch.cfg = Some(c.clone());
             chans.insert(c.name.clone(), ch);
         }
-        Model { cfg: cfg.clone(), conns: vec![], users: BTreeMap::new(), chans, history: BTreeMap::new(), max_users: 0, server_quit: false }
+        Model { cfg: cfg.clone(), conns: vec![], users: BTreeMap::new(), chans, history: BTreeMap::new(), max_users: 0, server_quit: false, touched: vec![] }
     }
 
     pub(crate) fn live_conns(&self) -> usize {
@@ -377,7 +380,11 @@ impl Model {
             match String::from_utf8(line) {
                 Ok(s) => self.line(c, &s, &mut se),
                 Err(_) => {
-                    se.ambiguous = Some("invalid utf-8 in model-driven input".into());
+                    // bytes that are not valid text: the session ends (C05/C06: "a fatal protocol error")
+                    se.labels.push(format!("end/bad_utf8/{}", if self.conns[c].registered { "registered" } else { "unregistered" }));
+                    se.cur = P06 | P05;
+                    self.push_e(&mut se, Exp::Optional { c, options: vec!["ERROR".into()] });
+                    self.end_conn(c);
                     break;
                 }
             }
@@ -438,7 +445,9 @@ impl Model {
 
     fn remove_user(&mut self, nick: &str) {
         if let Some(u) = self.users.remove(nick) {
+            self.touched.push((nick.to_string(), P06 | P19));
             for ch in &u.chans {
+                self.touched.push((ch.clone(), P06 | P16));
                 self.leave(ch, nick);
             }
             self.history.entry(nick.to_string()).or_default().push((u.user.clone(), u.host.clone(), u.real.clone()));
@@ -599,6 +608,7 @@ impl Model {
             }
             "AWAY" => {
                 let nick = self.conns[c].nick.clone().unwrap();
+                self.touched.push((nick.clone(), P10 | P19));
                 let u = self.users.get_mut(&nick).unwrap();
                 if let Some(t) = p.get(0) {
                     u.away = Some(t.clone());
@@ -766,6 +776,11 @@ impl Model {
         }
         let mut u = self.users.remove(&old).unwrap();
         let osrc = u.src();
+        self.touched.push((old.clone(), P15));
+        self.touched.push((new.clone(), P15));
+        for chn in &u.chans {
+            self.touched.push((chn.clone(), P15));
+        }
         self.history.entry(old.clone()).or_default().push((u.user.clone(), u.host.clone(), u.real.clone()));
         u.nick = new.clone();
         let mut peers: BTreeSet<usize> = BTreeSet::new();
@@ -855,6 +870,7 @@ impl Model {
             cfg_registered,
         };
         self.users.insert(nick.clone(), u);
+        self.touched.push((nick.clone(), P03 | P02 | P19));
         self.conns[c].registered = true;
         if self.users.len() > self.max_users {
             self.max_users = self.users.len();
@@ -1023,6 +1039,7 @@ impl Model {
                 continue;
             }
             let existed = self.chans.contains_key(name);
+            self.touched.push((name.clone(), P07 | P04 | if existed { 0 } else { P16 }));
             let ch = self.chans.entry(name.clone()).or_insert_with(|| MChan { name: name.clone(), ..Default::default() });
             let mut r = Rank::default();
             if !existed {
@@ -1097,6 +1114,7 @@ impl Model {
                     for m in members {
                         self.to_nick(se, &m, line.clone());
                     }
+                    self.touched.push((name.clone(), P04 | P16));
                     self.leave(&name, &nick);
                 }
             }
@@ -1162,6 +1180,8 @@ impl Model {
         let comment = p.get(2).cloned().unwrap_or_else(|| "Kicked".to_string());
         se.cur = P09 | P04;
         for v in &kicked {
+            self.touched.push((chan.clone(), P09 | P04 | P16));
+            self.touched.push((v.clone(), P09));
             self.leave(&chan, v);
         }
         let remaining: Vec<String> = self.chans.get(&chan).map(|ch| ch.members.keys().cloned().collect()).unwrap_or_default();
@@ -1219,6 +1239,7 @@ impl Model {
                     se.labels.push("TOPIC/set/482".into());
                 }
                 Some(r) => {
+                    self.touched.push((chan.clone(), P09));
                     let chm = self.chans.get_mut(&chan).unwrap();
                     chm.topic = if t.is_empty() { None } else { Some((t.clone(), nick.clone())) };
                     let line = format!(":{} TOPIC {}", src, p.join(SEP));
@@ -1307,6 +1328,8 @@ impl Model {
             se.labels.push("INVITE/401".into());
             return;
         }
+        self.touched.push((chan.clone(), P09));
+        self.touched.push((target.clone(), P09));
         self.users.get_mut(&target).unwrap().invited.insert(chan.clone());
         self.push(se, c, format!("341 {} {}", target, chan));
         self.to_nick(se, &target, format!(":{} INVITE {}", src, p.join(SEP)));
@@ -1491,6 +1514,7 @@ impl Model {
         let mut optional: Vec<String> = vec![];
         let mut refused = false;
         let src = self.users[nick].src();
+        self.touched.push((chan.to_string(), P08));
         if !me.is_halfop() {
             // nothing can be accepted; which parameter a refused letter is matched with is the server's business
             self.push_e(se, Exp::OptionalPrefix { c, prefix: "441 ".into() });
@@ -1704,6 +1728,7 @@ impl Model {
             return;
         }
         let cfg_reg = self.users[nick].cfg_registered;
+        self.touched.push((nick.to_string(), P11 | P19));
         let mut changes: Vec<String> = vec![];
         let mut opt: Vec<String> = vec![];
         let mut denied = false;
@@ -2101,6 +2126,7 @@ impl Model {
                     let u = self.users.get_mut(&nick).unwrap();
                     se.labels.push(format!("OPER/ok{}", if u.modes.is_oper() { "/repeat" } else { "" }));
                     u.modes.o = true;
+                    self.touched.push((nick.clone(), P11 | P19));
                     self.push(se, c, "381".into());
                 }
             }
